@@ -48,6 +48,19 @@ func GenDaemon(prop string, seed uint64, tier string) *DaemonScenario {
 		// must still be whole afterwards
 		sc := GenDaemon("C10", seed, tier)
 		sc.Prop = "C02"
+		r := NewRng(seed ^ 0xc02c02)
+		if r.Bool(60) {
+			sc.Backend, sc.MemSize = "memdb", r.Range(10, 13)
+		}
+		if sc.Check == nil {
+			cp := &CheckPlan{AtMs: sc.HealAtMs - int64(r.Range(1, 3))*int64(sc.PeriodS)*1000, Node: r.Intn(sc.N), Corrupt: r.Range(1, 4)}
+			for i := 0; i < sc.N; i++ {
+				if i != cp.Node {
+					cp.Peers = append(cp.Peers, i)
+				}
+			}
+			sc.Check = cp
+		}
 		return sc
 	}
 	if prop == "C01" && seed%4 == 3 {
